@@ -194,7 +194,7 @@ def load_known():
 
 def is_known(known, prop, cls, sig):
     for k in known:
-        if k.get("status") == "open" and k["property"] == prop and k["class"] == cls and k["sig"] == sig:
+        if k.get("status") == "open" and (k["property"] == prop or k.get("any_property")) and k["class"] == cls and k["sig"] == sig:
             return k
     return None
 
